@@ -657,7 +657,7 @@ fn assemble(gen: Gen, profile: Option<Profile>, under_shuttle: bool, mut w: Worl
         panic,
         exit_code,
         hard_fired: w.hard_fired,
-        stalled: w.stalled || w.missing_program || w.fd_exhausted || (w.gating_fault && w.hard_fired) || w.write_faulted || w.stat_faulted,
+        stalled: w.stalled || w.missing_program || w.fd_exhausted || (w.gating_fault && w.hard_fired) || w.write_faulted || w.stat_faulted || w.spawn_faulted,
         under_shuttle,
         sched_digest: w.sched_digest.0,
         diverged: w.diverged,
@@ -696,6 +696,10 @@ pub fn random_mode(seed: u64, gen: Gen, run: u64) -> Mode {
     // (round 13) one metadata query fails with EIO: same stream, drawn after everything else
     if !profile.read_fault && profile.write_fault == 0 && aux3.chance(1, 7) {
         profile.stat_fault = aux3.next_u64() | 1;
+    }
+    // (round 15) one thread creation fails with EAGAIN: same stream, drawn last
+    if !profile.read_fault && profile.write_fault == 0 && profile.stat_fault == 0 && aux3.chance(1, 7) {
+        profile.spawn_fault = aux3.next_u64() | 1;
     }
     Mode::Random { rng, aux, profile }
 }
